@@ -157,6 +157,20 @@ func runC06(c *checker) {
 		cases[i] = makeC06(c.r.U64()/k/2*k + uint64(i)%k)
 		jobs[i] = cases[i].job
 	}
+	// fixed programs: Thrift files that include each other (cycle length 1..3) — the generated
+	// packages would import each other (finding D83, repaired: generation refuses)
+	for k := 1; k <= 3; k++ {
+		files, order := map[string]string{}, []string{}
+		for i := 0; i < k; i++ {
+			nx := (i + 1) % k
+			files[fmt.Sprintf("cyc%d.thrift", i)] = fmt.Sprintf("include \"./cyc%d.thrift\"\n\nstruct S%d {\n  1: optional cyc%d.S%d peer\n  2: optional string v\n}\n", nx, i, nx, nx)
+			order = append(order, fmt.Sprintf("cyc%d.thrift", i))
+		}
+		job := &gobuild.Job{Files: files, Order: order, Opts: gobuild.Options{}}
+		inj := progs.Injection{Name: "D83-include-cycle", Class: "B", What: fmt.Sprintf("%d Thrift files that include each other in a cycle", k)}
+		cases = append(cases, &c06Case{seed: uint64(k), inj: inj, job: job})
+		jobs = append(jobs, job)
+	}
 	res := c.env.BuildAll(jobs, *par)
 	for i, cs := range cases {
 		cs.res = res[i]
@@ -164,7 +178,7 @@ func runC06(c *checker) {
 		if i < 6 {
 			c.rep.Sample(fmt.Sprintf("%s [%s] %s", cs.inj.Name, cs.inj.Class, cs.inj.What))
 		}
-		if !cs.res.GenOK || !cs.res.BuildOK || !cs.res.VetOK {
+		if cs.prog != nil && (!cs.res.GenOK || !cs.res.BuildOK || !cs.res.VetOK) {
 			dumpProgram(*dumpDir, fmt.Sprintf("c06-%s-%d", cs.inj.Name, cs.seed), cs.prog)
 		}
 		c.c06Evaluate(fmt.Sprintf("seed=%d opts=%s", cs.seed, cs.opts), cs.inj.Class, cs.inj.Name, c.c06Input(cs), cs.res)
